@@ -14,12 +14,22 @@ PRELUDE = "Require Import DTS.Model.Readers.\nDefinition e2 := eqb_list eqb_zl.\
 
 
 def worker(kind, directory, opts=None, tz="UTC"):
+    """one reader call in a fresh process under the host time zone `tz` (C12, C13)"""
     env = {**os.environ, "TZ": tz, "PYTHONPATH": "/repo/src:/verif"}
     r = subprocess.run(["/venv/bin/python", "-W", "ignore", "-m", "vlib.tz_worker", kind, directory, json.dumps(opts or {})], capture_output=True, text=True, env=env, cwd="/verif", timeout=600)
     for line in r.stdout.splitlines():
         if line.startswith("JSON:"):
             return json.loads(line[5:])
     return {"error": "worker failed: " + (r.stderr or r.stdout)[-300:]}
+
+
+def read_here(kind, directory, opts=None):
+    """the same reader call inside this process (placement does not depend on the host time zone); through JSON like the worker's result"""
+    from vlib import tz_worker
+    import warnings
+    with warnings.catch_warnings():
+        warnings.simplefilter("ignore")
+        return json.loads(json.dumps(tz_worker.read_files(kind, directory, opts or {})))
 
 
 def file_of(v):
@@ -40,7 +50,7 @@ def run(ctx):
     tmp = tempfile.mkdtemp(prefix="dts_c11_")
     exprs, meta = [], []
     try:
-        ncases = 2 if ctx.quick else 10
+        ncases = 5 if ctx.quick else 25
         for c in range(ncases):
             n, nx = int(rng.integers(1, 9)), int(rng.integers(3, 41 if not ctx.quick else 12))
             base = 1522201252 + int(rng.integers(0, 10 ** 6))
@@ -51,7 +61,7 @@ def run(ctx):
             for lim in (True, False, "auto"):
                 rec = {"reader": "silixa", "n": n, "nx": nx, "load_in_memory": lim}
                 ctx.case(("silixa", c, str(lim)), sample=rec)
-                o = worker("silixa", d, {"load_in_memory": lim})
+                o = read_here("silixa", d, {"load_in_memory": lim})
                 if "error" in o:
                     ctx.violation("silixa:raised", o["error"], rec)
                     continue
@@ -70,7 +80,7 @@ def run(ctx):
                 _, nitem = gen_files.silixa_files_from(tname, d, nn, nxx, [gen_files.stamp_str(base + 60 * f) for f in range(nn)], 10, 12 if dbl else None)
                 rec = {"reader": "silixa", "template": tname, "n": nn, "nx": nxx, "items": nitem}
                 ctx.case(("silixa-template", c, tname), sample=rec)
-                o = worker("silixa", d, {"load_in_memory": bool(rng.random() < 0.5)})
+                o = read_here("silixa", d, {"load_in_memory": bool(rng.random() < 0.5)})
                 if "error" in o:
                     ctx.violation(f"silixa:{tname}:raised", o["error"], rec)
                     continue
@@ -90,7 +100,7 @@ def run(ctx):
             gen_files.apsensing_files(d, nn, nxx, stamps_ap)
             rec = {"reader": "apsensing", "n": nn, "nx": nxx}
             ctx.case(("apsensing", c), sample=rec)
-            o = worker("apsensing", d, {"load_in_memory": bool(rng.random() < 0.5)})
+            o = read_here("apsensing", d, {"load_in_memory": bool(rng.random() < 0.5)})
             if "error" in o:
                 ctx.violation("apsensing:raised", o["error"], rec)
             else:
@@ -109,7 +119,7 @@ def run(ctx):
                 shutil.copy(os.path.join(tmp, f"apsensing_short{c}", nm), os.path.join(d, nm))
                 rec = {"reader": "apsensing", "fault": "one file with a different point count", "n": nn, "nx": nxx, "file": k}
                 ctx.case(("apsensing-bad", c), sample=rec)
-                o = worker("apsensing", d, {"load_in_memory": True})
+                o = read_here("apsensing", d, {"load_in_memory": True})
                 if "error" not in o:
                     ctx.violation("apsensing:inconsistent-lengths-loaded", "a file set with differing point counts was loaded", rec)
             # ---- Sensortran
@@ -117,7 +127,7 @@ def run(ctx):
             gen_files.sensortran_files(d, n, nx)
             rec = {"reader": "sensortran", "n": n, "nx": nx}
             ctx.case(("sensortran", c), sample=rec)
-            o = worker("sensortran", d)
+            o = read_here("sensortran", d)
             if "error" in o:
                 ctx.violation("sensortran:raised", o["error"], rec)
             else:
@@ -138,7 +148,7 @@ def run(ctx):
                         shutil.copy(os.path.join(d, f"{10 + other:02d}_00_00_BinaryTemp.dat"), os.path.join(d, f"{10 + n + 3:02d}_00_00_BinaryTemp.dat"))
                     rec = {"reader": "sensortran", "fault": fault, "n": n, "nx": nx, "missing": gone}
                     ctx.case(("sensortran-fault", c, fault), sample=rec)
-                    o = worker("sensortran", d)
+                    o = read_here("sensortran", d)
                     if "error" not in o:
                         ctx.violation(f"sensortran:{fault}-loaded", "a file set in which a measurement has no companion temperature file was loaded", rec)
             # ---- Sensornet
@@ -151,10 +161,12 @@ def run(ctx):
                 flip = naming.startswith("halo")  # the reader flips the backward channel for Halo / Sentinel files
                 single = naming == "oryx-single"
                 xr_ = np.array(info["x"])
-                for listing, flen in (("sorted", None), ("reversed", None), ("sorted", float(np.round(xr_[-1] - rng.choice([10.0, 30.0, 49.0, 80.0]), 1)))):
+                # explicit fiber_length: always one with fewer than 50 m recorded behind it (30 m), and one of {10, 49, 80} m
+                tails = [30.0, float(rng.choice([10.0, 49.0, 80.0]))]
+                for listing, flen in [("sorted", None), ("reversed", None)] + [("sorted", float(np.round(xr_[-1] - tl_, 1))) for tl_ in tails]:
                     rec = {"reader": "sensornet", "naming": naming, "n": n2, "listing": listing, "flip_reverse_measurements": flip, "drop_tail": drop, "fiber_length": flen}
                     ctx.case(("sensornet", c, naming, listing, flen), sample=rec)
-                    o = worker("sensornet", d, {"listing": listing, "fiber_length": flen})
+                    o = read_here("sensornet", d, {"listing": listing, "fiber_length": flen})
                     if "error" in o:
                         ctx.violation(f"sensornet:raised:{naming}", o["error"], rec)
                         continue
@@ -193,7 +205,7 @@ def run(ctx):
             gen_files.silixa_files(d, nb, nx, [gen_files.stamp_str(base + 30 * f) for f in range(nb)], 10, 12, bad_file=int(rng.integers(0, nb)))
             rec = {"reader": "silixa", "fault": "one file with a different point count", "n": nb, "nx": nx}
             ctx.case(("silixa-bad", c), sample=rec)
-            o = worker("silixa", d, {"load_in_memory": True})
+            o = read_here("silixa", d, {"load_in_memory": True})
             if "error" not in o:
                 ctx.violation("silixa:inconsistent-lengths-loaded", "a file set with differing point counts was loaded", rec)
         codes = core.run_cases(ctx, "stack", PRELUDE, exprs, shard=60)
